@@ -14,7 +14,7 @@
 
 use crate::errors::TermConversionError;
 use crate::types::{
-    Atom, BigInt, ExternalFun, ExternalPid, ExternalPort, ExternalReference, InternalFun, Mfa, Sign,
+    Atom, BigInt, ExternalFun, ExternalPid, ExternalPort, ExternalReference, InternalFun, Mfa,
 };
 use std::cmp::Ordering;
 use std::collections::{BTreeMap, HashMap};
@@ -2503,110 +2503,179 @@ impl OwnedTerm {
     }
 }
 
-fn compare_int_bigint(i: i64, big: &BigInt) -> Ordering {
-    if big.digits.is_empty() {
-        return i.cmp(&0);
-    }
-
-    if big.sign.is_negative() {
-        if i >= 0 {
-            return Ordering::Greater;
-        }
-        if big.digits.len() > 8 {
-            return Ordering::Greater;
-        }
-        let abs_i = i.wrapping_neg() as u64;
-        let big_val = bigint_to_u64(big);
-        abs_i.cmp(&big_val).reverse()
-    } else {
-        if i < 0 {
-            return Ordering::Less;
-        }
-        if big.digits.len() > 8 {
-            return Ordering::Less;
-        }
-        let abs_i = i as u64;
-        let big_val = bigint_to_u64(big);
-        abs_i.cmp(&big_val)
-    }
+/// Number of significant little-endian base-256 digits (high-order zero digits do not count).
+fn magnitude_len(digits: &[u8]) -> usize {
+    digits
+        .iter()
+        .rposition(|&d| d != 0)
+        .map_or(0, |pos| pos + 1)
 }
 
-fn compare_bigint_int(big: &BigInt, i: i64) -> Ordering {
+/// Compares two little-endian base-256 magnitudes: by digit count, then from the most
+/// significant digit down. For minimal digit sequences (no high-order zeros) this is
+/// the order of the values.
+fn compare_magnitudes(a: &[u8], b: &[u8]) -> Ordering {
+    a.len()
+        .cmp(&b.len())
+        .then_with(|| a.iter().rev().cmp(b.iter().rev()))
+}
+
+/// Compares two sign-and-magnitude integers by value. A zero magnitude is zero whatever its sign.
+fn compare_signed_magnitudes(a_negative: bool, a: &[u8], b_negative: bool, b: &[u8]) -> Ordering {
+    let signum = |negative: bool, digits: &[u8]| -> i8 {
+        if magnitude_len(digits) == 0 {
+            0
+        } else if negative {
+            -1
+        } else {
+            1
+        }
+    };
+    let (sign_a, sign_b) = (signum(a_negative, a), signum(b_negative, b));
+    sign_a.cmp(&sign_b).then_with(|| {
+        if sign_a < 0 {
+            compare_magnitudes(b, a)
+        } else {
+            compare_magnitudes(a, b)
+        }
+    })
+}
+
+pub(crate) fn compare_int_bigint(i: i64, big: &BigInt) -> Ordering {
+    let digits = i.unsigned_abs().to_le_bytes();
+    compare_signed_magnitudes(
+        i < 0,
+        &digits[..magnitude_len(&digits)],
+        big.sign.is_negative(),
+        &big.digits,
+    )
+}
+
+pub(crate) fn compare_bigint_int(big: &BigInt, i: i64) -> Ordering {
     compare_int_bigint(i, big).reverse()
 }
 
-fn compare_bigint(a: &BigInt, b: &BigInt) -> Ordering {
-    match (a.sign, b.sign) {
-        (Sign::Positive, Sign::Negative) => Ordering::Greater,
-        (Sign::Negative, Sign::Positive) => Ordering::Less,
-        (Sign::Positive, Sign::Positive) => a
-            .digits
-            .len()
-            .cmp(&b.digits.len())
-            .then_with(|| a.digits.cmp(&b.digits)),
-        (Sign::Negative, Sign::Negative) => a
-            .digits
-            .len()
-            .cmp(&b.digits.len())
-            .then_with(|| a.digits.cmp(&b.digits))
-            .reverse(),
+pub(crate) fn compare_bigint(a: &BigInt, b: &BigInt) -> Ordering {
+    compare_signed_magnitudes(
+        a.sign.is_negative(),
+        &a.digits,
+        b.sign.is_negative(),
+        &b.digits,
+    )
+}
+
+/// Number of bits in a little-endian base-256 magnitude.
+fn magnitude_bit_len(digits: &[u8]) -> u64 {
+    match magnitude_len(digits) {
+        0 => 0,
+        len => (len as u64 - 1) * 8 + (8 - digits[len - 1].leading_zeros() as u64),
     }
 }
 
-fn bigint_to_u64(big: &BigInt) -> u64 {
-    let mut result = 0u64;
-    for (i, &byte) in big.digits.iter().enumerate().take(8) {
-        result |= (byte as u64) << (i * 8);
+/// Compares a magnitude with a finite, strictly positive float, exactly (no rounding).
+fn compare_magnitude_float(digits: &[u8], f: f64) -> Ordering {
+    let bits = f.to_bits();
+    let biased_exponent = ((bits >> 52) & 0x7ff) as i64;
+    let fraction = bits & ((1u64 << 52) - 1);
+    // f = mantissa * 2^exponent
+    let (mantissa, exponent) = if biased_exponent == 0 {
+        (fraction, -1074)
+    } else {
+        (fraction | (1u64 << 52), biased_exponent - 1075)
+    };
+
+    if exponent < 0 {
+        let shift = -exponent as u64;
+        let (integer_part, has_fraction) = if shift >= 64 {
+            (0, true)
+        } else {
+            (mantissa >> shift, mantissa & ((1u64 << shift) - 1) != 0)
+        };
+        let integer_digits = integer_part.to_le_bytes();
+        compare_magnitudes(
+            &digits[..magnitude_len(digits)],
+            &integer_digits[..magnitude_len(&integer_digits)],
+        )
+        .then(if has_fraction {
+            Ordering::Less
+        } else {
+            Ordering::Equal
+        })
+    } else {
+        let shift = exponent as u64;
+        let float_bit_len = 64 - mantissa.leading_zeros() as u64 + shift;
+        magnitude_bit_len(digits).cmp(&float_bit_len).then_with(|| {
+            // Same bit length: the bits above `shift` fit into 53 bits.
+            let (byte_shift, bit_shift) = ((shift / 8) as usize, shift % 8);
+            let mut top = 0u128;
+            for (i, &digit) in digits.iter().skip(byte_shift).take(9).enumerate() {
+                top |= (digit as u128) << (i * 8);
+            }
+            let top = (top >> bit_shift) as u64;
+            let low_bits_set = digits.iter().take(byte_shift).any(|&d| d != 0)
+                || digits
+                    .get(byte_shift)
+                    .is_some_and(|&d| d & ((1u8 << bit_shift) - 1) != 0);
+            top.cmp(&mantissa).then(if low_bits_set {
+                Ordering::Greater
+            } else {
+                Ordering::Equal
+            })
+        })
     }
-    result
 }
 
-fn compare_int_float(i: i64, f: f64) -> Ordering {
+/// Compares a sign-and-magnitude integer with a float by mathematical value.
+/// NaN sorts after every number.
+fn compare_signed_magnitude_float(negative: bool, digits: &[u8], f: f64) -> Ordering {
     if f.is_nan() {
         return Ordering::Less;
     }
-    let i_as_f = i as f64;
-    i_as_f.partial_cmp(&f).unwrap_or(Ordering::Equal)
+    let int_sign: i8 = if magnitude_len(digits) == 0 {
+        0
+    } else if negative {
+        -1
+    } else {
+        1
+    };
+    let float_sign: i8 = if f == 0.0 {
+        0
+    } else if f < 0.0 {
+        -1
+    } else {
+        1
+    };
+    int_sign.cmp(&float_sign).then_with(|| {
+        if int_sign == 0 {
+            Ordering::Equal
+        } else if f.is_infinite() {
+            if f > 0.0 {
+                Ordering::Less
+            } else {
+                Ordering::Greater
+            }
+        } else if int_sign < 0 {
+            compare_magnitude_float(digits, -f).reverse()
+        } else {
+            compare_magnitude_float(digits, f)
+        }
+    })
 }
 
-fn compare_float_int(f: f64, i: i64) -> Ordering {
+pub(crate) fn compare_int_float(i: i64, f: f64) -> Ordering {
+    compare_signed_magnitude_float(i < 0, &i.unsigned_abs().to_le_bytes(), f)
+}
+
+pub(crate) fn compare_float_int(f: f64, i: i64) -> Ordering {
     compare_int_float(i, f).reverse()
 }
 
-fn compare_bigint_float(big: &BigInt, f: f64) -> Ordering {
-    if f.is_nan() {
-        return Ordering::Less;
-    }
-    let big_as_f = bigint_to_f64(big);
-    big_as_f.partial_cmp(&f).unwrap_or(Ordering::Equal)
+pub(crate) fn compare_bigint_float(big: &BigInt, f: f64) -> Ordering {
+    compare_signed_magnitude_float(big.sign.is_negative(), &big.digits, f)
 }
 
-fn compare_float_bigint(f: f64, big: &BigInt) -> Ordering {
+pub(crate) fn compare_float_bigint(f: f64, big: &BigInt) -> Ordering {
     compare_bigint_float(big, f).reverse()
-}
-
-fn bigint_to_f64(big: &BigInt) -> f64 {
-    let mut result = 0f64;
-    let mut scale = 1.0f64;
-
-    for &byte in big.digits.iter() {
-        let contribution = (byte as f64) * scale;
-        if contribution.is_infinite() || scale.is_infinite() {
-            return if big.sign.is_negative() {
-                f64::NEG_INFINITY
-            } else {
-                f64::INFINITY
-            };
-        }
-        result += contribution;
-        scale *= 256.0;
-    }
-
-    if big.sign.is_negative() {
-        -result
-    } else {
-        result
-    }
 }
 
 fn compare_term_lists(a: &[OwnedTerm], b: &[OwnedTerm]) -> Ordering {
